@@ -3,7 +3,7 @@
     records and key states. *)
 From Saml Require Import Base.Bytes Idp.FactTypes Gen.Facts Idp.Sso Idp.Callback Core.Attrs Idp.AttrQuery.
 From Saml Require Import Idp.BuilderTypes Idp.Builder Xml.Unmarshal Idp.AuthnOf Idp.RequestsOf.
-From Saml Require Import Idp.BuilderTypes Idp.Builder Idp.BuiltDoc.
+From Saml Require Import Idp.BuilderTypes Idp.Builder Gen.Builders Idp.BuiltDoc Idp.GetSamlAll Idp.SuccessAny Idp.QueryFilter Idp.AttrRefine.
 From Saml Require Import Xml.SchemaTypes Xml.Schema Gen.Schema Xml.SamlSpec.
 
 Definition cur_atags : list atag := Eval vm_compute in map atag_of attrquery_steps.
@@ -55,6 +55,33 @@ Proof.
   destruct (C12_answered _ _ _ _ _ _ _ _ _ _ H) as (q & i & sp & n & u & E & _ & _ & _ & _ & Hd & _).
   exists q. split; [exact E|]. destruct Hd as [Hd|[Hd|[]]]; auto.
 Qed.
+
+(** THE FILTER, FROM SOURCE, FOR ALL LISTS.  The fourth statement of the program go2v translates from makeAttributeQueryResponse
+    is the filtering statement; executed on any list of user attributes and any list of requested attributes (each with a Name
+    and a NameFormat) it leaves in providedAttrs: everything when nothing was requested, otherwise each attribute once per
+    requested entry whose Name and NameFormat equal its own (induction over both lists; Idp/QueryFilter.v) *)
+Theorem C12_filter_from_source :
+  nth_error aq_body 3 = Some filter_stmt /\
+  forall o k E fr qs l,
+    env_get E "queriedAttrs"%string = Some (DList qs) -> env_get E "attrsSaml"%string = Some (DList l) -> env_get E "providedAttrs"%string = Some (DList []) ->
+    Forall wf_attr qs -> Forall wf_attr l ->
+    exists E', exec builders o (15 + k) {| s_env := E; s_fresh := fr |} filter_stmt = Some (RNext {| s_env := E'; s_fresh := fr |}) /\
+               env_get E' "providedAttrs"%string = Some (DList (dfilter qs l)).
+Proof.
+  split; [exact filter_stmt_from_source|]. intros o k E fr qs l H1 H2 H3 W1 W2.
+  destruct (filter_exec o k E fr qs l H1 H2 H3 W1 W2) as (E' & A & B & _). exists E'. split; [exact A|exact B].
+Qed.
+(** REFINEMENT: the whole answer, as a program (GetSAML, the filter, makeResponse, makeAssertion), for every user record -- any
+    number of custom attributes -- and every list of requested attributes: the attribute statement of the assertion abstracts,
+    field by field, to the model's filter_attrs (requested) (attrs_of u), i.e. to the am_attrs of C12_answered *)
+Theorem C12_answer_refines_model : forall reqid issuer sp u (qs : list dval) id1 id2 rest issue until,
+  Forall wf_attr qs ->
+  built_sat "makeAttributeQueryResponse" None
+    [DStr reqid; DStr issuer; DStr sp; user_rec u; DList qs; DStr (b "f"); DNil] (id1 :: id2 :: rest) issue until
+    (fun d r => r = rest /\ exists l,
+       dget d [PField "Assertion"; PField "AttributeStatement"; PIndex 0; PField "Attribute"] = Some (DList l) /\
+       map attr_of_dval l = filter_attrs (requested_of qs) (attrs_of u)).
+Proof. exact attrquery_refines. Qed.
 
 (** the attribute filter: an attribute is disclosed iff it is one of the user's attributes and (nothing was requested or
     its name and name format match a requested attribute) *)
@@ -109,3 +136,5 @@ Print Assumptions C12_schema.
 Print Assumptions C12_built_response.
 Print Assumptions C12_trailing_content_refused.
 Print Assumptions C12_answered_destination.
+Print Assumptions C12_filter_from_source.
+Print Assumptions C12_answer_refines_model.
